@@ -783,7 +783,7 @@ class DirectoryRecord:
                 mid = (lo + hi) // 2
                 rr = self.rr_children[mid].rock_ridge
                 if rr is not None:
-                    if rr.name() < child.rock_ridge.name():
+                    if rr.name() <= child.rock_ridge.name():
                         lo = mid + 1
                     else:
                         hi = mid
